@@ -98,6 +98,43 @@ func runC09(c *core.Ctx) {
 			jobs = append(jobs, job{s, p})
 		}
 	}
+	// every word of both lists once: a valid sentence that starts with word i, printed, parsed again (must be the same
+	// sentence) and turned into a seed (must succeed and equal the reference) - a table entry in another spelling than the
+	// parser produces would make the library reject its own sentences
+	for _, lang := range []string{"english", "japanese"} {
+		bip39.SetWordList(lang)
+		core.Par(2048, func(i int) {
+			e := make([]byte, 16)
+			for k := range e {
+				e[k] = byte(k*29 + i)
+			}
+			e[0], e[1] = byte(i>>3), byte(i&7)<<5|e[1]&0x1f
+			var m, again bip39.Mnemonic
+			var seed []byte
+			var err, serr error
+			p := core.Catch(func() {
+				if m, err = bip39.EntropyToMnemonic(e); err == nil {
+					again = bip39.ParseMnemonic(m.String())
+					seed, serr = bip39.MnemonicToSeed(again, "")
+				}
+			})
+			c.Eval(1)
+			nontriv.Add(1)
+			cas := map[string]interface{}{"list": lang, "first_word_index": i, "entropy": fmt.Sprintf("%x", e)}
+			switch {
+			case p != nil || err != nil:
+				c.Violate("C09/every-word/error", fmt.Sprintf("%s word %d: %v %v", lang, i, p, err), cas, "", nil)
+			case !reflect.DeepEqual([]string(again), []string(m)):
+				c.Violate("C09/every-word/print-parse", fmt.Sprintf("%s word %d: parsing the printed sentence gives %q, the sentence was %q", lang, i, again, m), cas, "", nil)
+			case serr != nil:
+				c.Violate("C09/every-word/seed-error", fmt.Sprintf("%s word %d: the library's own sentence %q, printed and parsed, is refused by MnemonicToSeed: %v", lang, i, m.String(), serr), cas, "", nil)
+			default:
+				if want, rerr := rb39.Seed(again, ""); rerr == nil && !bytes.Equal(seed, want) {
+					c.Violate("C09/every-word/seed-wrong", fmt.Sprintf("%s word %d: seed %x..., reference %x...", lang, i, seed[:8], want[:8]), cas, "", nil)
+				}
+			}
+		})
+	}
 	// MnemonicToSeed validates against the selected list: run per language
 	for _, lang := range []string{"english", "japanese"} {
 		bip39.SetWordList(lang)
